@@ -177,7 +177,7 @@ def inv0(which):
         P, n, root = T(v)
         dom, val, lens = cm_view(v["children_map"])
         i = to_z3(v["_k0"], "int")
-        k, j, a = z3.Int(fresh_name("k")), z3.Int(fresh_name("j")), z3.Int(fresh_name("a"))
+        k, j, a = z3.Ints("k_cm j_cm a_cm")  # fixed bound names: the same fact about the same map is the same term wherever it is stated
         pa = z3.Select(P, a)
         if which == "sizes":
             return z3.ForAll([k], z3.If(z3.Select(dom, k), z3.And(z3.Select(lens, k) == nch(k, i), nch(k, i) > 0), nch(k, i) == 0))
@@ -303,7 +303,7 @@ def inv2(which):
         dom, val, lens = cm_view(v["children_map"])
         chd = lambda q: sel(sel(val, me), q)
         cur = to_z3(v["cur"], "oref")
-        p, y, q = (z3.Int(fresh_name(t)) for t in "pyq")
+        p, y, q = (z3.Int(f"{t}_{which}") for t in "pyq")
         mine = lambda t: z3.And(t >= 0, t < n, sel(P, t) == me, nch(me, t) < j)  # t is one of the first j children of `me`
         if which == "stack-grows-by-the-children":
             return z3.And(s["ln"] == s0["ln"] + j,
@@ -442,8 +442,10 @@ def exit_hint(E, v):
     E.assumptions.add("assumed-lemma:tree_induction (P(root) and (P(parent x) -> P(x)) for subtree nodes => P on the subtree; depth witness) instantiated for P = entered")
 
 
-def _symbols(t, cache={}):
-    """names of the uninterpreted symbols of a formula"""
+
+
+def _bound_names(t, cache={}):
+    """names of the variables bound by the quantifiers of a formula"""
     key = t.get_id()
     if key in cache and cache[key][0].eq(t):
         return cache[key][1]
@@ -454,32 +456,33 @@ def _symbols(t, cache={}):
             continue
         seen.add(a.get_id())
         if z3.is_quantifier(a):
+            out.update(a.var_name(i) for i in range(a.num_vars()))
             todo.append(a.body())
-            for k in range(a.num_patterns()):
-                todo.extend(a.pattern(k).children())
         elif z3.is_app(a):
-            if a.decl().kind() == z3.Z3_OP_UNINTERPRETED:
-                out.add(a.decl().name())
             todo.extend(a.children())
     cache[key] = (t, out)
     return out
 
 
-def leave_branch_step(nm):
-    """Proof step for the leave branch of the stack loop: popping a leave frame keeps invariant `nm`.  It is proved from the part of
-    the path condition that does not speak about child counting (nch / rrow: the children-map facts and their ghost definitions),
-    which this step does not need - a SUBSET of the hypotheses (sound), so that the solver's answer does not depend on its seed.
-    The clause obligation that follows finds the very same term among its hypotheses."""
+def leave_branch_step(nm, uses=()):
+    """Proof step for the leave branch of the stack loop: popping a leave frame keeps invariant `nm`.  It is proved from an explicit
+    SUBSET of the path condition (sound): the quantifier-free facts (the popped frame read off the invariants, the branch taken, the
+    ghost updates) and, of the quantified facts, only invariant `nm` itself, `counts` and those named in `uses` - recognised by the fixed
+    names of their bound variables.  The solver's work then does not depend on the order or number of the other hypotheses (children
+    map, child counting, values, times, the bulk pop), nor on its seed.  The clause obligation that follows finds the very same term
+    among its hypotheses."""
+    allowed = {f"{t}_{w}" for w in (nm, "counts", *uses) for t in "xpcj"}
+
     def h(E, v):
         if "is_enter" not in v or "stack" not in v:
             return
         if E.feasible(to_z3(v["is_enter"], "bool")):
-            return  # the enter branch needs the children map: proved from the whole path condition as before
+            return  # the enter branch needs the children map and the inner loop's invariants: proved from the whole path condition
         from pyvc.engine import Oblig
 
         goal = inv1(nm)(E, v, None)
-        hyps = [f for f in E.pc if not ({"nch", "rrow"} & _symbols(f))]
-        note = "annotation [context without nch / rrow]" + (f" [variant {E.variant}]" if getattr(E, "variant", "") else "")
+        hyps = [f for f in E.pc if _bound_names(f) <= allowed]
+        note = "annotation [context: quantifier-free facts + invariants " + ", ".join((nm, "counts", *uses)) + "]" + (f" [variant {E.variant}]" if getattr(E, "variant", "") else "")
         E.obligs.append(Oblig(f"{E.prop}/_traverse_dfs/step/popping-a-leave-frame-keeps/{nm}", hyps, goal, "annotation", note))
         E.pc.append(goal)
 
